@@ -12,7 +12,7 @@ THEOREMS = ["Econf.C11_set", "Econf.C11_get", "Econf.C11_keys", "Econf.C11_group
             "Econf.C11_refines", "Econf.C11_fresh", "Econf.Struct.tie_macros", "Econf.Struct.api_frames"]
 RULE = ("random sequences of create/set/get/get-with-default/list operations (1..60, thorough ..300) over a small universe of sections "
         "and keys incl. bracketed, empty and NULL ones, starting from econf_newKeyFile, econf_newIniFile, "
-        "econf_newKeyFile_with_options and parsed files; every output is compared with a reference ordered map; distinct by op sequence")
+        "econf_newKeyFile_with_options, parsed files (with and without group-less keys, with key-less sections) and merged objects; every output is compared with a reference ordered map; distinct by op sequence")
 
 
 def norm_group(g):
@@ -91,9 +91,24 @@ def oracle(s, lines):
                 if t[2] in ("key", "ini"):
                     ref.sections.append(NONE)
                 continue
-            if c == "RF":
+            if c in ("RF", "M") and ref is None:
                 next(out)
-                return None   # parsed start: covered by the model comparison and C02
+                continue      # parsed / merged start: the reference map starts from the object's own first dump (below)
+            if c == "FREE" and ref is None:
+                next(out)
+                continue
+            if c == "RAW" and ref is None:
+                head = next(out).split(" ")
+                if head[1] == "null":
+                    return None
+                n = int(head[1].split("=")[1])
+                ng = int(head[2].split("=")[1])
+                ref = RefMap()
+                ref.sections = [unh(x) for x in head[3:3 + ng]]
+                for _ in range(n):
+                    e = next(out).split(" ")
+                    ref.items.append([unh(e[1]), unh(e[2]), unh(e[3])])
+                continue
             if ref is None:
                 return None
             if c == "SET":
@@ -129,7 +144,7 @@ def oracle(s, lines):
                 else:
                     it = ref.find(norm_group(g), k)
                     if it is not None:
-                        want = "get E0 h" + it[2].hex()
+                        want = "get E0 " + ("~" if it[2] is None else "h" + it[2].hex())
                     elif c == "GETD":
                         want = "get E5 " + ("~" if t[5] == "-" else t[5])
                     else:
@@ -148,7 +163,10 @@ def oracle(s, lines):
                 res = next(out)
                 g = unh(t[2])
                 g = NONE if (g is None or g == b"") else g
-                ks = [it[1] for it in ref.items if it[0] == g]
+                ks = []
+                for it in ref.items:
+                    if it[0] == g and it[1] not in ks:
+                        ks.append(it[1])
                 want = "keys E0" + "".join(" h" + x.hex() for x in ks) if ks else "keys E5"
                 if res != want:
                     return "%s -> %r, reference map says %r" % (cmd, res, want)
@@ -176,7 +194,7 @@ def nontrivial(s, lines):
 
 
 def histogram(s, lines):
-    ks = ["start_%s" % ["newKeyFile", "newIniFile", "with_options", "parsed"][s.meta.get("start", 0)]] if "start" in s.meta else ["corpus"]
+    ks = ["start_%s" % ["newKeyFile", "newIniFile", "with_options", "parsed", "merged"][s.meta.get("start", 0)]] if "start" in s.meta else ["corpus"]
     nset = sum(1 for l in lines if l == "set E0")
     ks.append("growth_beyond_8" if nset > 8 else "within_8")
     for l in lines:
